@@ -3,11 +3,10 @@ C08  Literal values reach the database unchanged and cannot alter the statement.
 
 What is proved (all over `Model/Lex` = verified mirror of the lexer, and `Model/Lit`):
 * T1  `prql_string_value`, `prql_escape_hex`, `prql_escape_unicode`, `prql_quote_roundtrip`
-* T2  the injection boundary.  The FULL statement `sql_quote_roundtrip_full` is about the printer prqlc really uses
-      (`sqlQuote` = mirror of sqlparser's `EscapeQuotedString`).  It is FALSE: `sql_quote_roundtrip_counterexample`
-      (`\'`), `sql_injection_witness`, `sql_quote_value_change_witness` (`''`).  Proved instead:
-      `sql_quote_roundtrip_partial` (all values without `\'` and without `''`), `sql_quote_std_roundtrip` (plain doubling is
-      right for every string) and `sql_quote_patched_roundtrip` (doubling the quotes before calling the printer repairs it).
+* T2  the injection boundary: `sql_quote_roundtrip` – for EVERY string the literal prqlc emits (`sqlQuote` = the value with its
+      quotes doubled, printed by sqlparser's `EscapeQuotedString`) is read back by the standard SQL string lexer as exactly the
+      value; `sql_quote_eq_doubling` – doubling then that printer = plain doubling; `sql_quote_std_roundtrip`.
+      `printer_alone_*`: statements about sqlparser's printer WITHOUT the doubling (not about prqlc): why the doubling is needed.
 * T2′ `sql_quote_roundtrip_backslash_counterexample`: for a reader that treats `\` as an escape no quote-doubling printer works.
 * T3  `int_roundtrip`, `prql_decimal_value`, `radix_value`; `int_literal_exact_counterexample` (beyond i64 the lexer yields a
       float), `radix_overlong_counterexample` (digit limits split the spelling).
@@ -115,71 +114,77 @@ example : Model.Lex.string (prqlQuote ['\\', '\'', ' ', '"'] ++ [' ', 'x']) = so
 
 /-! ## T2  the injection boundary -/
 
-/-- FULL statement, about the printer prqlc uses: the emitted literal lexes back (standard SQL) to exactly the value and ends
-exactly where the printer ended it, provided the emitter never puts another quote right after it -/
-def sql_quote_roundtrip_full : Prop :=
-  ∀ s rest : Src, rest.head? ≠ some '\'' → sqlLexString (sqlQuote s ++ rest) = some (s, rest)
+/-- doubling the quotes and then running sqlparser's "may already be escaped" printer is plain quote doubling: the printer
+prints an already doubled value verbatim.  (This is the repair of commit 938f352: `translate_literal` doubles first.) -/
+theorem sql_quote_eq_doubling (s : Src) : sqlQuote s = sqlQuoteStd s := by
+  simp [sqlQuote, sqlQuoteStd, Quote.quote, sqlEscape_esc]
 
-/-- … and it is false: the two-character value `\'` is printed as `'\''`, whose first three characters are a complete literal -/
-theorem sql_quote_roundtrip_counterexample : ¬ sql_quote_roundtrip_full := by
+/-- **the injection boundary** (FULL statement, about the emitter prqlc uses): for EVERY value – quotes, backslashes, newlines,
+comment markers, non-ASCII – the emitted literal lexes back (standard SQL) to exactly the value and ends exactly where the
+emitter ended it, provided the emitter never puts another quote right after it.  Nothing in the value can end the literal
+early or extend it. -/
+theorem sql_quote_roundtrip (s rest : Src) (hrest : rest.head? ≠ some '\'') :
+    sqlLexString (sqlQuote s ++ rest) = some (s, rest) := by
+  rw [sql_quote_eq_doubling]
+  exact Quote.quote_roundtrip '\'' s rest hrest
+
+example : sqlLexString (sqlQuote ['\\', '\'', ' ', 'O', 'R', ' ', '1', '=', '1', ' ', '-', '-'] ++ [' ', 'x'])
+    = some (['\\', '\'', ' ', 'O', 'R', ' ', '1', '=', '1', ' ', '-', '-'], [' ', 'x']) := by decide
+example : sqlLexString (sqlQuote ['\'', '\''] ++ [' ', 'x']) = some (['\'', '\''], [' ', 'x']) := by decide
+
+/-- plain quote doubling is a correct printer for every string (the reference emitter) -/
+theorem sql_quote_std_roundtrip (s rest : Src) (hrest : rest.head? ≠ some '\'') :
+    sqlLexString (sqlQuoteStd s ++ rest) = some (s, rest) :=
+  Quote.quote_roundtrip '\'' s rest hrest
+
+/-! ### why the doubling is needed: sqlparser's printer ALONE (`sqlQuoteRaw`)
+
+The next four statements are about sqlparser's `EscapeQuotedString` applied to an un-doubled value.  They are NOT claims about
+what prqlc emits (that is `sql_quote_roundtrip` above); they record why `translate_literal` must double first, and they are
+re-checked against the printer mirror, which `tools/props/c08.py` ties to the code through the emitted texts. -/
+
+/-- the printer alone does not round-trip: the two-character value `\'` is printed as `'\''`, whose first three characters are
+a complete literal -/
+theorem printer_alone_counterexample :
+    ¬ ∀ s rest : Src, rest.head? ≠ some '\'' → sqlLexString (sqlQuoteRaw s ++ rest) = some (s, rest) := by
   intro h
   have := h ['\\', '\''] [' ', 'x'] (by decide)
   revert this
   decide
 
-/-- the tail of such a value becomes SQL: whatever follows, the reader sees the string `\` and then ` OR 1=1 --'…` as statement text -/
-theorem sql_injection_witness (rest : Src) :
-    sqlLexString (sqlQuote ['\\', '\'', ' ', 'O', 'R', ' ', '1', '=', '1', ' ', '-', '-'] ++ rest)
+/-- with the printer alone the tail of such a value becomes SQL -/
+theorem printer_alone_injection_witness (rest : Src) :
+    sqlLexString (sqlQuoteRaw ['\\', '\'', ' ', 'O', 'R', ' ', '1', '=', '1', ' ', '-', '-'] ++ rest)
       = some (['\\'], [' ', 'O', 'R', ' ', '1', '=', '1', ' ', '-', '-', '\''] ++ rest) := by
-  simp [sqlLexString, sqlQuote, sqlEscape, Quote.lexQuoted, Quote.lexBody, Quote.push]
+  simp [sqlLexString, sqlQuoteRaw, sqlEscape, Quote.lexQuoted, Quote.lexBody, Quote.push]
 
-/-- a value with two adjacent quotes silently loses one -/
-theorem sql_quote_value_change_witness :
-    sqlLexString (sqlQuote ['\'', '\''] ++ [' ', 'x']) = some (['\''], [' ', 'x']) := by decide
-
-/-- the values the printer's "may already be escaped" heuristic leaves alone: no quote directly after a backslash and no two
-adjacent quotes -/
+/-- the values the printer's heuristic leaves alone: no quote directly after a backslash and no two adjacent quotes -/
 def Plain (s : Src) : Prop := Clean '\'' (Char.ofNat 0) s
 
 instance (s : Src) : Decidable (Plain s) := by unfold Plain; exact inferInstance
 
-/-- PARTIAL: for every plain value the emitted literal is read back exactly (nothing in it ends the literal early or extends it) -/
-theorem sql_quote_roundtrip_partial (s rest : Src) (hs : Plain s) (hrest : rest.head? ≠ some '\'') :
-    sqlLexString (sqlQuote s ++ rest) = some (s, rest) := by
-  have := Quote.quote_roundtrip '\'' s rest hrest
-  simpa [sqlLexString, sqlQuote, Quote.quote, sqlEscape_clean '\'' _ s hs] using this
+/-- on plain values the printer alone already is quote doubling, so the doubling changed no text that was right before -/
+theorem printer_alone_plain (s : Src) (hs : Plain s) : sqlQuoteRaw s = sqlQuote s := by
+  simp [sqlQuoteRaw, sqlQuote, sqlEscape_esc, sqlEscape_clean '\'' _ s hs]
 
 example : Plain ['i', 't', '\'', 's', ' ', '-', '-', ' ', '\\', 'n', ';', '/', '*'] := by decide
 example : ¬ Plain ['\\', '\''] := by decide
 example : ¬ Plain ['\'', '\''] := by decide
 
-/-- plain quote doubling is a correct printer for EVERY string: quotes, backslashes, newlines, comment markers, anything -/
-theorem sql_quote_std_roundtrip (s rest : Src) (hrest : rest.head? ≠ some '\'') :
-    sqlLexString (sqlQuoteStd s ++ rest) = some (s, rest) :=
-  Quote.quote_roundtrip '\'' s rest hrest
+/-! ### T2′ readers that treat `\` as an escape -/
 
-/-- the repair: doubling the quotes before handing the value to sqlparser's printer makes the round trip hold for every string
-(the printer prints an already doubled value verbatim) -/
-theorem sql_quote_patched_roundtrip (s rest : Src) (hrest : rest.head? ≠ some '\'') :
-    sqlLexString (sqlQuotePatched s ++ rest) = some (s, rest) := by
-  have := Quote.quote_roundtrip '\'' s rest hrest
-  simpa [sqlLexString, sqlQuotePatched, Quote.quote, sqlEscape_esc] using this
-
-/-- the repair does not change the text of any value that is printed correctly today -/
-theorem sql_quote_patched_same_text (s : Src) (hs : Plain s) : sqlQuotePatched s = sqlQuote s := by
-  simp [sqlQuotePatched, sqlQuote, sqlEscape_esc, sqlEscape_clean '\'' _ s hs]
-
-/-- T2′: for a reader in which `\` escapes the next character (MySQL, BigQuery, ClickHouse, Snowflake, Redshift) neither the
-printer in use nor plain doubling is safe: the one-character value `\` swallows the closing quote -/
+/-- for a reader in which `\` escapes the next character (MySQL, BigQuery, ClickHouse, Snowflake, Redshift) quote doubling is
+not enough: the one-character value `\` swallows the closing quote – for the emitter in use and for the reference emitter, with
+and without MySQL's `\%` `\_` exemption.  (Open finding `backslash-in-string-on-backslash-escaping-dialect`.) -/
 theorem sql_quote_roundtrip_backslash_counterexample :
     (¬ ∀ s rest : Src, rest.head? ≠ some '\'' → sqlLexStringBs false (sqlQuote s ++ rest) = some (s, rest)) ∧
-    (¬ ∀ s rest : Src, rest.head? ≠ some '\'' → sqlLexStringBs false (sqlQuoteStd s ++ rest) = some (s, rest)) ∧
-    (¬ ∀ s rest : Src, rest.head? ≠ some '\'' → sqlLexStringBs true (sqlQuoteStd s ++ rest) = some (s, rest)) := by
+    (¬ ∀ s rest : Src, rest.head? ≠ some '\'' → sqlLexStringBs true (sqlQuote s ++ rest) = some (s, rest)) ∧
+    (¬ ∀ s rest : Src, rest.head? ≠ some '\'' → sqlLexStringBs false (sqlQuoteStd s ++ rest) = some (s, rest)) := by
   refine ⟨?_, ?_, ?_⟩ <;> intro h <;> have := h ['\\'] [' ', 'x'] (by decide) <;> revert this <;> decide
 
 /-- under such a reader a backslash also changes values that keep the statement intact: `a\nb` comes back with a line feed -/
 theorem backslash_value_change_witness :
-    sqlLexStringBs false (sqlQuoteStd ['a', '\\', 'n', 'b'] ++ [' ']) = some (['a', '\n', 'b'], [' ']) := by decide
+    sqlLexStringBs false (sqlQuote ['a', '\\', 'n', 'b'] ++ [' ']) = some (['a', '\n', 'b'], [' ']) := by decide
 
 /-! ## T3  integers -/
 
